@@ -14,7 +14,8 @@ EXPLANATION = (
     "(index terms reconstructed from MIR), or to 0 on the partial-body path after the bytes "
     "buffer[start..end] were appended to the body; the completing body path appends exactly "
     "buffer[start..start + remaining] and advances the line start by that amount; the next receive "
-    "appends at the cursor; the parsed-request queue is mutated only by push_back / pop_front. "
+    "appends at the cursor; the parsed-request queue is mutated only by push_back / pop_front; the parser's fields are written only "
+    "by code that runs under try_read and by constructors. "
     "Decides these clauses; equality of results across all segmentations is not decided."
 )
 TRUSTED = ["a failed recvmsg stores nothing", "for i in a..b iterates a, a+1, .., b-1"]
@@ -40,6 +41,8 @@ def run(ctx):
     from . import c02, c14
     ctx.guarded("R01.7", "lines", lambda: c02.lines(_Remap(ctx, "R01.7")))
     ctx.guarded("R01.7", "find", lambda: c14.find_shape(_Remap(ctx, "R01.7")))
+    ctx.rule("R01.10", "the parser's state (state, pending request, cursor, body accumulator and counter, received files, buffer) and Request.files are written only by the read side: try_read and what it calls, and the constructors")
+    ctx.guarded("R01.10", "read-side-owns", lambda: read_side_owns(ctx, "R01.10"))
     ctx.rule("R01.9", "the too-long-line test does not depend on where a read ended inside the line: start == 0 && end == BUFFER_SIZE (= C04 R04.3)")
     from . import c04
     ctx.guarded("R01.9", "line-limit", lambda: c04.line_limit(_Remap(ctx, "R01.9")))
@@ -234,6 +237,33 @@ def body(ctx):
     a.replay(ctx)
     for (rule, key, ok, msg, loc, witness) in b.failed():
         ctx.ob(rule, "arithmetic|" + key, ok, "(arithmetic form) " + msg, loc, witness)
+
+
+def read_side_owns(ctx, rule, fields=("state", "pending_request", "read_cursor", "body_vec", "body_bytes_to_be_read", "files", "buffer"), request_files=True):
+    """Who may write the parser's state: only code that runs under try_read (and the constructor).  A buffer released when
+    a request is popped, descriptors adopted by the request while its body is still arriving -- any writer elsewhere
+    changes what a later read finds, whatever its intention."""
+    from .fields import field_writers
+    from .util import writer_roots
+    facts = ctx.facts
+    loopfn = conn.parse_loop_fn(ctx)
+    read_side = {conn.P + "new", conn.P + "try_read", loopfn, conn.PARSE_RL, conn.PARSE_H, conn.PARSE_B, conn.READ_BYTES, conn.RECV, conn.SHIFT, conn.P + "reset_parser"}
+    n = 0
+    for f_ in fields:
+        for w in field_writers(facts, conn.HC, f_):
+            n += 1
+            roots = writer_roots(facts, w[0])
+            if w[3] == "construct":
+                continue        # a literal builds a new connection (another constructor); it does not touch an existing one
+            ctx.ob(rule, "read-side-owns|%s|%s" % (f_, w[0]), roots <= read_side, "HttpConnection.%s is written (%s) in %s, on behalf of %s: only the read side (try_read and what it calls) and the constructor may" % (f_, w[3], w[0], sorted(roots)), w[2])
+    if request_files:
+        allowed = {conn.PARSE_RL, loopfn, "request::Request::try_from", conn.P + "reset_parser"}    # the reset may move the files into the request it drops
+        for w in field_writers(facts, "request::Request", "files"):
+            n += 1
+            roots = writer_roots(facts, w[0])
+            ctx.ob(rule, "read-side-owns|Request.files|%s" % w[0], roots <= allowed, "Request.files is written (%s) in %s, on behalf of %s: only where a request is created and at the hand-over on completion" % (w[3], w[0], sorted(roots)), w[2])
+    floor = 14 if len(fields) >= 7 else 4
+    ctx.ob(rule, "read-side-owns|floor", n >= floor, "%d writers of the parser's fields inspected (floor %d)" % (n, floor))
 
 
 def _body_taken(lf):
